@@ -10,7 +10,7 @@
    FULL STATEMENT (not proved in full): no panic site at all is reachable.
    PROVED (render_never_panics_partial): the only reachable sites are
      900  slice::sort_by on a comparator that is not a total preorder  (the recorded known finding
-          sort-incomparable; by C14.sort_unspecified_iff it is reached exactly on such inputs), and
+          sort-incomparable; by C14.sort_by_unspecified_iff it is reached exactly on such inputs), and
      303/304  String::from_utf8(..).expect in capture / ifchanged, whose safety is the UTF-8
           validity of what the body wrote (every write is `encode` of a string; the closure of
           valid strings under all filters is not proved — the correspondence runs check the bytes). *)
